@@ -4,11 +4,11 @@ from .. import vlib
 
 TRUSTED = [
     "Lean 4.33 kernel; axioms per theorem under coverage.axioms (subset of propext, Classical.choice, Quot.sound)",
-    "the C03 core semantics (Model/SchedCore, 23 record operations incl. the deferred WPIMULT and end_report; byte-for-byte correspondence there) and Model/SchedAction",
-    "harness/schedule.cpp (acorr: real Schedule::applyAction incl. sequences vs model; aprop: real applyAction vs real Schedule of the inlined deck, generated and shipped decks) + differ; Model/SchedIO.lean",
+    "the C03 core semantics (Model/SchedCore, 23 record operations incl. the deferred WPIMULT and end_report, COMPORD / connection ordering, WELL_STATUS_CHANGE events; byte-for-byte correspondence there) and Model/SchedAction",
+    "harness/schedule.cpp (acorr: real Schedule::applyAction incl. sequences vs model; aprop: real applyAction vs real Schedule of the inlined deck, generated and shipped decks; bodies with COMPDAT / WELOPEN on connections / WPIMULT are compared in full — record, member-wise wells/groups, all events — when closing step n was void: no all-default WPIMULT record in block n and no well of state n with all connections shut (closingVoid, sufficient for the hypothesis Closed s1 of apply_eq_inline_closed_step), else in the past only) + differ; Model/SchedIO.lean",
     "states are compared with Sim (equal property channel, equal connection channel, equal status of every well, marker ignored); sim_observation proves that Sim states with equal markers print the same observation record",
-    "scope: bodies over the modelled keyword set without COMPDAT / WELOPEN-on-connections / WPIMULT (the property's own exception; COMPLUMP is covered); non-decreasing steps; '?' is resolved once per application in the model (handler-time in the C++; differs only for wells the body itself creates)",
-    "modelled, not verified: PYACTION, WELPI/WTMULT and other unmodelled body keywords (property mode only), SimulatorUpdate flags other than affected wells, action_wgnames visibility of later ACTIONX blocks after a resize",
+    "scope: apply_eq_inline / apply_sequence: bodies over the modelled keyword set without COMPDAT / WELOPEN-on-connections / WPIMULT (the property's own exception; COMPLUMP is covered); apply_eq_inline_closed_step(_events): any body at a step whose own keywords left it closed; apply_closes_steps: any body, any step; non-decreasing steps; '?' is resolved once per application in the model (handler-time in the C++; differs only for wells the body itself creates)",
+    "modelled, not verified: PYACTION, WELPI/WTMULT and other unmodelled body keywords (property mode only), events other than the ACTIONX marker and WELL_STATUS_CHANGE (property mode compares all), SimulatorUpdate flags other than affected wells, action_wgnames visibility of later ACTIONX blocks after a resize",
 ]
 
 
